@@ -3,6 +3,7 @@ import MjProof.Lemmas.LinAlgChol
 import MjProof.Lemmas.LinAlgBand
 import MjProof.Lemmas.Sparse
 import MjProof.Lemmas.SparseD2S
+import MjProof.Lemmas.LinAlgCert
 /-
 C23  Linear algebra routines agree with their definitions.
 
@@ -209,5 +210,62 @@ theorem dense2sparse_sparse2dense {nr nc cap nnz : Nat} (p : Pat nr nc cap) (hnd
         denseOf q (dense2sparse (sparse2dense p mat) init).res a b = denseOf p mat a b := by
   obtain ⟨q, h1, h2, h3, -, hrep⟩ := dense2sparse_pat (sparse2dense p mat) hnnz hcap init
   exact ⟨q, h1, h2, h3, fun a b ha hb => by rw [hrep a b ha hb, sparse2dense_eq p hnd]⟩
+
+/-! ### certificate theorems for the iterative routines
+
+`mju_eig3`, `mju_boxQP` and `mju_QCQP*` iterate to a tolerance; they are not modelled.  The oracle of
+checks/c23.py evaluates the following certificates on their real outputs (up to a stated residual); the theorems
+say that a point which satisfies a certificate exactly has the documented property. -/
+
+/-- **eig3 certificate.**  If `A V = V Λ` and `Vᵀ V = I` then `(Λ, V)` is an orthonormal eigendecomposition of
+`A`: `A = V Λ Vᵀ`, `V Vᵀ = I`, and every column of `V` is an eigenvector for the corresponding entry of `Λ`
+(any size; `mju_eig3` is the case `n = 3`, where the oracle additionally checks `det V = 1`). -/
+theorem eig3_certificate {n : ℕ} (A V : Matrix (Fin n) (Fin n) ℝ) (lam : Fin n → ℝ)
+    (h1 : A * V = V * Matrix.diagonal lam) (h2 : V.transpose * V = 1) :
+    A = V * Matrix.diagonal lam * V.transpose ∧ V * V.transpose = 1 ∧
+      ∀ j, A.mulVec (fun i => V i j) = lam j • (fun i => V i j) :=
+  eig_cert A V lam h1 h2
+
+example : ∃ (A V : Matrix (Fin 2) (Fin 2) ℝ) (lam : Fin 2 → ℝ),
+    A * V = V * Matrix.diagonal lam ∧ V.transpose * V = 1 ∧ lam 0 ≠ lam 1 :=
+  ⟨Matrix.diagonal ![2, 3], 1, ![2, 3], by simp, by simp, by simp⟩
+
+/-- **boxQP certificate.**  For a symmetric positive semidefinite `H` (in particular `H ≻ 0`), a feasible point
+satisfying the KKT sign conditions (gradient `≤ 0` wherever the lower bound is inactive, `≥ 0` wherever the upper
+bound is inactive) is a global minimiser of `½ xᵀHx + gᵀx` over the box. -/
+theorem boxQP_certificate {n : ℕ} (H : Matrix (Fin n) (Fin n) ℝ) (hsym : H.transpose = H)
+    (hpsd : ∀ z, 0 ≤ dotProduct z (H.mulVec z))
+    (g lo hi x : Fin n → ℝ) (hx : ∀ i, lo i ≤ x i ∧ x i ≤ hi i)
+    (hkkt : ∀ i, (lo i < x i → (H.mulVec x + g) i ≤ 0) ∧ (x i < hi i → 0 ≤ (H.mulVec x + g) i))
+    (y : Fin n → ℝ) (hy : ∀ i, lo i ≤ y i ∧ y i ≤ hi i) : qobj H g x ≤ qobj H g y :=
+  boxqp_cert H hsym hpsd g lo hi x hx hkkt y hy
+
+/-- non-vacuity: `H = I`, `g = (1, -5)`, box `[0,1]²`: the KKT point is `(0, 1)` (one coordinate at each kind of
+bound) -/
+example : ∃ (x : Fin 2 → ℝ), (∀ i, (![0, 0] : Fin 2 → ℝ) i ≤ x i ∧ x i ≤ (![1, 1] : Fin 2 → ℝ) i) ∧
+    ∀ i, ((![0, 0] : Fin 2 → ℝ) i < x i → ((1 : Matrix (Fin 2) (Fin 2) ℝ).mulVec x + (![1, -5] : Fin 2 → ℝ) : Fin 2 → ℝ) i ≤ 0) ∧
+         (x i < (![1, 1] : Fin 2 → ℝ) i → 0 ≤ ((1 : Matrix (Fin 2) (Fin 2) ℝ).mulVec x + (![1, -5] : Fin 2 → ℝ) : Fin 2 → ℝ) i) := by
+  refine ⟨![0, 1], ?_, ?_⟩
+  · intro i; fin_cases i <;> simp
+  · intro i; fin_cases i <;> simp <;> norm_num
+
+/-- **QCQP certificate** (`mju_QCQP2`, `mju_QCQP3`, `mju_QCQP`; any `n`).  For symmetric positive semidefinite `A`:
+a point `x` with a multiplier `la ≥ 0`, stationarity `A x + b + la·x/d² = 0` and complementary slackness
+`la·(Σ (x_i/d_i)² − r²) = 0` minimises `½ xᵀAx + bᵀx` over `{Σ (y_i/d_i)² ≤ r²}`. -/
+theorem QCQP_certificate {n : ℕ} (A : Matrix (Fin n) (Fin n) ℝ) (hsym : A.transpose = A)
+    (hpsd : ∀ z, 0 ≤ dotProduct z (A.mulVec z))
+    (b d x : Fin n → ℝ) (r la : ℝ) (hla : 0 ≤ la)
+    (hstat : ∀ i, (A.mulVec x + b) i + la * (x i / d i ^ 2) = 0)
+    (hcomp : la * (ellip d x - r ^ 2) = 0)
+    (y : Fin n → ℝ) (hy : ellip d y ≤ r ^ 2) : qobj A b x ≤ qobj A b y :=
+  qcqp_cert A hsym hpsd b d x r la hla hstat hcomp y hy
+
+/-- non-vacuity: `A = I`, `b = (-2, 0)`, `d = (1, 1)`, `r = 1`: active constraint, `x = (1, 0)`, `la = 1` -/
+example : ∃ (x : Fin 2 → ℝ) (la : ℝ), 0 < la ∧
+    (∀ i, ((1 : Matrix (Fin 2) (Fin 2) ℝ).mulVec x + (![-2, 0] : Fin 2 → ℝ) : Fin 2 → ℝ) i + la * (x i / (![1, 1] : Fin 2 → ℝ) i ^ 2) = 0) ∧
+    la * (ellip ![1, 1] x - 1 ^ 2) = 0 := by
+  refine ⟨![1, 0], 1, by norm_num, ?_, ?_⟩
+  · intro i; fin_cases i <;> simp <;> norm_num
+  · simp [ellip, Fin.sum_univ_two]
 
 end MjProof.C23
